@@ -49,11 +49,10 @@ shards = 12
 args = [exe, "-work", work, "-out", prefix, "-seed", str(ck.seed), "-shards", str(shards), "-staticcheck", sc,
         "-testdata", os.path.join(REPO, "unused/testdata/src/example.com")]
 if ck.thorough():
-    args += ["-gen", "300", "-perms", "3", "-mono", "2", "-cperms", "2", "-cmono", "2", "-variants", "20", "-maxnodes", "9000",
+    args += ["-gen", "600", "-perms", "3", "-mono", "2", "-cperms", "2", "-cmono", "2", "-variants", "20", "-maxnodes", "9000",
              "-corpus", REPO + ":./unused+./pattern+./config+./lintcmd/...+./analysis/...+./go/ir+./staticcheck/..."]
 else:
-    args += ["-gen", "26", "-perms", "2", "-mono", "1", "-cperms", "1", "-cmono", "1", "-variants", "5", "-maxnodes", "1500",
-             "-corpus", REPO + ":./unused+./config"]
+    args += ["-gen", "24", "-perms", "2", "-mono", "1", "-cperms", "1", "-cmono", "1", "-variants", "4", "-maxnodes", "1500"]
 env = dict(GOENV); env["VERIF_REPO"] = REPO
 rc, out = sh(args, timeout=6000, env=env)
 if rc != 0 or not os.path.exists(prefix + ".json"):
